@@ -48,7 +48,7 @@ class Wire(probes.Probe):
 
 
 class Transport(object):
-    def __init__(self, profile, with_coder=True, extra_top=None):
+    def __init__(self, profile, with_coder=True, extra_top=None, with_auth=False):
         from yowsup.stacks import YowStack
         from yowsup.layers.noise.layer import YowNoiseLayer
         from yowsup.layers.noise.layer_noise_segments import YowNoiseSegmentsLayer
@@ -59,6 +59,12 @@ class Transport(object):
         if with_coder:
             layers.append(YowCoderLayer)
         layers.append(self.top)
+        self.with_auth = with_auth
+        if with_auth:
+            # the library's authentication layer above the recording probe: logins are then started the way the library does it,
+            # by the 'connected' announcement of the network layer (here: of the wire)
+            from yowsup.layers.auth import YowAuthenticationProtocolLayer
+            layers.append(YowAuthenticationProtocolLayer)
         self.stack = YowStack(tuple(layers), reversed=False, props={"profile": profile})
         self.noise = self.stack.getLayer(2)
         self.profile = profile
@@ -73,6 +79,11 @@ class Transport(object):
     def auth(self, passive=False):
         from yowsup.layers import YowLayerEvent
         from yowsup.layers.auth import YowAuthenticationProtocolLayer
+        if getattr(self, "with_auth", False):
+            from yowsup.layers.network import YowNetworkLayer
+            self.stack.setProp(YowAuthenticationProtocolLayer.PROP_PASSIVE, passive)
+            self.wire.emitEvent(YowLayerEvent(YowNetworkLayer.EVENT_STATE_CONNECTED))
+            return
         self.stack.broadcastEvent(YowLayerEvent(YowAuthenticationProtocolLayer.EVENT_AUTH, passive=passive))
 
     def disconnected(self):
